@@ -75,7 +75,7 @@ func c16(c *core.Check) {
 		c.Rule("R1", "anchor", 0).Anchor("html/document.drawContext.drawStackingContext")
 		return
 	}
-	r1 := c.Rule("R1", "drawStackingContext paints in Appendix E order: own background then border; then negative z-index contexts, in-flow blocks, floats, inline content, blocks-and-cells content, z-index 0/auto contexts, positive z-index contexts; outlines after the content stack", 9)
+	r1 := c.Rule("R1", "drawStackingContext paints in Appendix E order: own background then border; then negative z-index contexts, in-flow blocks, floats, inline content, blocks-and-cells content, z-index 0/auto contexts, positive z-index contexts; outlines after the content stack", 8)
 	// find the closure that reads negativeZContexts (the content stack) and the one that calls drawOutlines
 	var inner, outer *ssa.Function
 	for _, f := range allClosures(dsc) {
@@ -201,7 +201,7 @@ func c16(c *core.Check) {
 	}
 
 	// background before border wherever both are drawn in a function of the package
-	r1b := c.Rule("R1b", "in every function of html/document that draws both, a box's background is drawn before its border on every path", 4)
+	r1b := c.Rule("R1b", "in every function of html/document that draws both, a box's background is drawn before its border on every path", 2)
 	for _, root := range p.FuncsOfPkg("html/document") {
 		hasBg, hasBo := false, false
 		core.Instrs(root, func(in ssa.Instruction) {
@@ -224,7 +224,7 @@ func c16(c *core.Check) {
 	}
 
 	// ---- R2 partition and sorting
-	r2 := c.Rule("R2", "NewStackingContext puts a child context in the negative list iff zIndex<0, the zero list iff zIndex==0, the positive list iff zIndex>0; the negative and positive lists are sorted with a stable sort whose comparison is strict < on zIndex", 7)
+	r2 := c.Rule("R2", "NewStackingContext puts a child context in the negative list iff zIndex<0, the zero list iff zIndex==0, the positive list iff zIndex>0; the negative and positive lists are sorted with a stable sort whose comparison is strict < on zIndex", 5)
 	nsc := p.Fn("html/document", "NewStackingContext")
 	if nsc == nil {
 		r2.Anchor("html/document.NewStackingContext")
@@ -324,7 +324,7 @@ func c16(c *core.Check) {
 								return
 							}
 							b, ok := ret.Results[0].(*ssa.BinOp)
-							if !ok || b.Op != token.LSS {
+							if !ok || (b.Op != token.LSS && b.Op != token.GTR) {
 								return
 							}
 							fromParam := func(v ssa.Value, pi int) bool {
@@ -333,7 +333,11 @@ func c16(c *core.Check) {
 									return ok && ia.Index == cmp.Params[pi]
 								}) && core.DerivesFrom(v, func(x ssa.Value) bool { return core.IsFieldNamed(x, "zIndex") })
 							}
-							if fromParam(b.X, 0) && fromParam(b.Y, 1) {
+							// list[i].z < list[j].z, or the same written list[j].z > list[i].z
+							if b.Op == token.LSS && fromParam(b.X, 0) && fromParam(b.Y, 1) {
+								okCmp = true
+							}
+							if b.Op == token.GTR && fromParam(b.X, 1) && fromParam(b.Y, 0) {
 								okCmp = true
 							}
 						})
@@ -457,7 +461,7 @@ func isConst(v ssa.Value) bool { _, ok := v.(*ssa.Const); return ok }
 // c16Dispatch: the dispatch closure of NewStackingContextFromBox.
 func c16Dispatch(c *core.Check) {
 	p := c.Prog
-	r := c.Rule("R5", "dispatch of boxes into the painting lists: a box is put on the float layer only when it is not positioned (a positioned float is painted with the positioned boxes, Appendix E step 8), and every insertion index (into the child contexts, the blocks and the blocks-and-cells lists) is read before the descendants of the box are dispatched, so that a box precedes its descendants (tree order)", 4)
+	r := c.Rule("R5", "dispatch of boxes into the painting lists: a box is put on the float layer only when it is not positioned (a positioned float is painted with the positioned boxes, Appendix E step 8), and every insertion index (into the child contexts, the blocks and the blocks-and-cells lists) is read before the descendants of the box are dispatched, so that a box precedes its descendants (tree order)", 2)
 	fn := p.Lookup("html/document.NewStackingContextFromBox$1")
 	if fn == nil {
 		r.Anchor("html/document.NewStackingContextFromBox$1 (dispatch)")
@@ -592,7 +596,7 @@ func c16Dispatch(c *core.Check) {
 // c16Page: the layers of a page, bottom to top.
 func c16Page(c *core.Check) {
 	p := c.Prog
-	r := c.Rule("R6", "drawPage paints, bottom to top: the page box's own background (@page), the canvas background propagated from the root element, the page border, then the root stacking context (CSS Paged Media 3 §4: the canvas is painted over the page background)", 3)
+	r := c.Rule("R6", "drawPage paints, bottom to top: the page box's own background (@page), the canvas background propagated from the root element, the page border, then the root stacking context (CSS Paged Media 3 §4: the canvas is painted over the page background)", 1)
 	fn := p.Method("html/document", "drawContext", "drawPage")
 	if fn == nil {
 		r.Anchor("html/document.drawContext.drawPage")
@@ -637,7 +641,7 @@ func c16Page(c *core.Check) {
 // page's own positioned content.
 func c16FixedBoxes(c *core.Check) {
 	p := c.Prog
-	r := c.Rule("R7", "fixed boxes of other pages are inserted in document order: in layoutDocument the new children of a page's root are appended in three steps — layoutFixedBoxes of the pages before this one (a slice of the page list ending at the page's index), the root's own children, layoutFixedBoxes of the pages after it (a slice starting after the index)", 3)
+	r := c.Rule("R7", "fixed boxes of other pages are inserted in document order: in layoutDocument the new children of a page's root are appended in three steps — layoutFixedBoxes of the pages before this one (a slice of the page list ending at the page's index), the root's own children, layoutFixedBoxes of the pages after it (a slice starting after the index)", 1)
 	fn := p.Fn("html/layout", "layoutDocument")
 	lfb := p.Fn("html/layout", "layoutFixedBoxes")
 	if fn == nil || lfb == nil {
